@@ -22,6 +22,8 @@ def register(K):
     K.contract("fickle.StackedPickle.__getitem__", params="self: fickle.StackedPickle, index: val", returns="val", pure=True,
                raises={"IndexError": "index_out_of_range(index, len(self.pickled))"},
                ensures=["getitem_eq(result, self.pickled, index)"])
+    K.contracts["fickle.StackedPickle.__getitem__"].returns_for_slice = "tuple[fickle.Pickled]"
+    K.contracts["fickle.StackedPickle.__getitem__"].returns_for_index = "fickle.Pickled"
 
     _first = {}
 
